@@ -216,7 +216,8 @@ def verify_label(label):
         return
     found = False
     for pattern in LABEL_RE_LIST:
-        if pattern.match(label):
+        # "$" also matches in front of a trailing line break
+        if pattern.match(label) and not label.endswith("\n"):
             found = True
             break
     if not found:
